@@ -473,6 +473,9 @@ func specCorpus() []run.Case {
 		{D("a", bson.A{D("b", bson.A{one}), D("b", bson.A{two})}), D("a.b", D("$all", bson.A{one, two}))},
 		{D("a", bson.A{D("b", one), D("b", two)}), D("a.b", D("$all", bson.A{one, two}))},
 		{D("a", bson.A{D("b", bson.A{one, two})}), D("a.b", D("$all", bson.A{one, two}))},
+		// $all with an array member next to other members (no fan-out)
+		{D("a", bson.A{one, two}), D("a", D("$all", bson.A{bson.A{one, two}, one}))},
+		{D("a", bson.A{one, two}), D("a", D("$all", bson.A{bson.A{one, two}}))},
 		// $elemMatch, field form, on elements that are not documents
 		{D("a", bson.A{one}), D("a", D("$elemMatch", D("b", nil)))},
 		{D("a", bson.A{one}), D("a", D("$elemMatch", D("b", D("$exists", false))))},
